@@ -143,7 +143,9 @@ protected:
 	{
 		off_type cur = static_cast<off_type>(mBase + (gptr() - eback()));
 		if (gptr() == egptr() && egptr() == eback()) cur = static_cast<off_type>(mPos);
-		if (dir == std::ios_base::cur && off == 0) return pos_type(cur);   // tellg() is always allowed
+		// a buffer that cannot seek cannot tell its position either (like a pipe): libraries probe with tellg() to choose a no-seek path
+		if (!mSeekable && dir == std::ios_base::cur && off == 0) return pos_type(off_type(-1));
+		if (dir == std::ios_base::cur && off == 0) return pos_type(cur);   // tellg()
 		++seeks;
 		if (!mSeekable) { ++seekRefused; ++SeekRefusedGlobal(); return pos_type(off_type(-1)); }
 		off_type target = dir == std::ios_base::beg ? off : dir == std::ios_base::cur ? cur + off : static_cast<off_type>(mData.size()) + off;
